@@ -354,11 +354,15 @@ def judge(case, hr, drw, drr, dalt):
                         "C11:label-identity", {"lines": bad_f[:5]}))
         stats["label_ops_checked"] = stats.get("label_ops_checked", 0) + sum(
             int(l.split("ops=")[1].split()[0]) for l in hr["L2"] if l.startswith("func"))
-        bad_l = [l for l in hr["L2"] if l.startswith("lref") and ("attached=0" in l or ",0" in l)]
+        l1 = [l for l in hr["L1"] if l.startswith("lref")]
+        l2 = [l for l in hr["L2"] if l.startswith("lref")]
+        # only lref items whose labels were label insns of a function before the round trip count
+        bad_l = [b for a_, b in zip(l1, l2) if a_ != b and ("attached=0" in b or ",0" in b)] if len(l1) == len(l2) else l2
         exp_orphan = CFG["lrefOrphan"]
         if bad_l:
             out.append(("the labels of an lref item of the re-read module are not label insns of any function "
-                        "(model: lrefOrphan=%s)" % exp_orphan, "C11:lref-orphan-labels", {"lines": bad_l[:5]}))
+                        "(model: lrefOrphan=%s)" % exp_orphan,
+                        "C11:lref-orphan-labels" if exp_orphan else "C11:lref-after-other-func", {"lines": bad_l[:5]}))
         elif exp_orphan and any(l.startswith("lref") for l in hr["L2"]):
             tie_breaks.append((case, "lref-labels", {"model": "orphan labels", "impl": hr["L2"][:5]}))
     if [l for l in hr["L1"] if l.startswith("func") and
@@ -395,7 +399,8 @@ def judge(case, hr, drw, drr, dalt):
             if (x1[:1] == ["load ok"] and x2 and x2[0].startswith("loaderr") and "A label not from any function" in x2[0]
                     and "lref" in features(d1)):
                 out.append(("module with lref data cannot be loaded after the round trip: " + x2[0],
-                            "C11:lref-orphan-labels", {"X1": x1[:3], "X2": x2[:3]}))
+                            "C11:lref-orphan-labels" if CFG["lrefOrphan"] else "C11:lref-after-other-func",
+                            {"X1": x1[:3], "X2": x2[:3]}))
             else:
                 out.append(("load/execution differs after the round trip", "C11:exec-differs",
                             {"first_diff": first_diff(x1, x2)}))
@@ -517,6 +522,13 @@ def defect_probes():
          "insn %d 1 r:%s" % (C["RET"], x(b"a")), "endfunc",
          "lref %s 1 - 0" % x(b"l1"), "lref - 2 1 8", "endmodule"]
     P.append(Case("known-lref", L, flags=["load"], kind="probe"))
+    # an lref item separated from the function that owns its labels by another function
+    L = ["module " + x(b"m"), "func %s 0 1 6 1 6 %s 0" % (x(b"f"), x(b"a")), "label 1",
+         "insn %d 3 r:%s r:%s i:1" % (C["ADD"], x(b"a"), x(b"a")), "label 2",
+         "insn %d 1 r:%s" % (C["RET"], x(b"a")), "endfunc",
+         "func %s 0 1 6 1 6 %s 0" % (x(b"g"), x(b"a")), "label 3", "insn %d 1 r:%s" % (C["RET"], x(b"a")), "endfunc",
+         "lref %s 2 1 0" % x(b"t"), "endmodule"]
+    P.append(Case("known-lref-after-other-func", L, flags=["modlabels", "load"], kind="probe"))
     # a label after the last instruction of a function
     L = ["module " + x(b"m"), "func %s 0 1 6 1 6 %s 0" % (x(b"f"), x(b"a")),
          "insn %d 1 l:1" % C["JMP"], "insn %d 1 r:%s" % (C["RET"], x(b"a")), "label 1", "endfunc", "endmodule"]
@@ -675,12 +687,13 @@ def int_module(g, rng, nfuncs, with_lref=True):
     for _ in range(nfuncs):
         fn, a = g.ident(False), g.ident(False)
         regs = [g.ident(False) for _ in range(3)]
+        cnt = g.ident(False)                                         # loop counter, written nowhere else
         L.append("func %s 0 1 6 1 6 %s 0" % (x(fn), x(a)))
-        L += ["local 6 %s" % x(r) for r in regs]
-        L += ["insn %d 2 r:%s i:%d" % (C["MOV"], x(r), rng.below(50)) for r in regs]
+        L += ["local 6 %s" % x(r) for r in regs + [cnt]]
+        L += ["insn %d 2 r:%s i:%d" % (C["MOV"], x(r), rng.below(50)) for r in regs + [cnt]]
         nl = 2 + rng.below(4)
         L.append("label 1")                                          # loop head = first label
-        L.append("insn %d 3 r:%s r:%s i:1" % (C["ADD"], x(regs[0]), x(regs[0])))
+        L.append("insn %d 3 r:%s r:%s i:1" % (C["ADD"], x(cnt), x(cnt)))
         for k in range(2, nl + 1):
             op = rng.choice(["ADD", "SUB", "XOR", "MUL", "AND"])
             L.append("insn %d 3 r:%s r:%s r:%s" % (C[op], x(rng.choice(regs)), x(rng.choice(regs)), x(a)))
@@ -688,7 +701,7 @@ def int_module(g, rng, nfuncs, with_lref=True):
                                                    rng.below(100)))
             L.append("insn %d 3 r:%s r:%s i:%d" % (C["ADD"], x(regs[1]), x(regs[1]), g.u64() & 0xFFFF))
             L.append("label %d" % k)
-        L.append("insn %d 3 l:1 r:%s i:%d" % (C["BLT"], x(regs[0]), 60 + rng.below(20)))
+        L.append("insn %d 3 l:1 r:%s i:%d" % (C["BLT"], x(cnt), 60 + rng.below(20)))
         L.append("insn %d 3 r:%s r:%s r:%s" % (C["ADD"], x(regs[0]), x(regs[1]), x(regs[2])))
         L += ["insn %d 1 r:%s" % (C["RET"], x(regs[0])), "endfunc"]
         if with_lref:
